@@ -59,6 +59,9 @@ type C09Peer struct {
 	ReplacePeerAS   bool
 	AllowOwnAS      uint8
 	AllowLoopLocal  bool
+	// Negotiated: the neighbour is configured WITHOUT peer-as; Kind / AS are what the session turns out to be
+	// (the FSM derives the peer type from the AS in the peer's OPEN and records it in State only).
+	Negotiated bool
 }
 
 // LocalAS is the AS the local router presents on this session: the local-as option if set, the
@@ -101,6 +104,9 @@ func (p *C09Peer) Options() string {
 	if p.ClusterID.IsValid() {
 		o = append(o, "cluster-id")
 	}
+	if p.Negotiated {
+		o = append(o, "peer-as-unset")
+	}
 	if p.LocalAddr.Is6() {
 		o = append(o, "v6-session")
 	}
@@ -116,7 +122,7 @@ func (p *C09Peer) Describe() map[string]any {
 	}
 	return map[string]any{"kind": p.Kind.String(), "as": p.AS, "local_as_option": p.LocalASOverride, "addr": p.Addr.String(), "local_addr": p.LocalAddr.String(),
 		"router_id": p.RouterID.String(), "cluster_id": p.ClusterID.String(), "remove_private_as": p.RemovePrivate, "replace_peer_as": p.ReplacePeerAS,
-		"allow_own_as": p.AllowOwnAS, "allow_as_path_loop_local": p.AllowLoopLocal}
+		"allow_own_as": p.AllowOwnAS, "allow_as_path_loop_local": p.AllowLoopLocal, "peer_as_unset": p.Negotiated}
 }
 
 func (rt *C09Router) Describe() map[string]any {
@@ -163,8 +169,21 @@ func C09Neighbor(g *oc.Global, rt *C09Router, p *C09Peer) (*oc.Neighbor, error) 
 		{Config: oc.AfiSafiConfig{AfiSafiName: oc.AFI_SAFI_TYPE_IPV4_UNICAST, Enabled: true}},
 		{Config: oc.AfiSafiConfig{AfiSafiName: oc.AFI_SAFI_TYPE_IPV6_UNICAST, Enabled: true}},
 	}
+	if p.Negotiated {
+		n.Config.PeerAs = 0
+	}
 	if err := oc.SetDefaultNeighborConfigValues(n, nil, g); err != nil {
 		return nil, err
+	}
+	if p.Negotiated {
+		// Units that run no session reproduce what the FSM records at ESTABLISHED for a neighbour without
+		// configured peer-as (fsm.stateChange): the AS of the peer's OPEN and the session type derived from it.
+		// Config.PeerType keeps the value computed from peer-as 0.
+		n.State.PeerAs = p.AS
+		n.State.PeerType = oc.PEER_TYPE_EXTERNAL
+		if n.Config.LocalAs == p.AS {
+			n.State.PeerType = oc.PEER_TYPE_INTERNAL
+		}
 	}
 	return n, nil
 }
@@ -319,6 +338,11 @@ func C09GenPeer(r *rand.Rand, rt *C09Router, kind C09Kind, k int) *C09Peer {
 		if r.IntN(2) == 0 {
 			p.ClusterID = c09Pick(r, c09Addr("9.9.9.9"), c09Addr("0.0.0.7"))
 		}
+	}
+	// a neighbour without configured peer-as: its type is only known from the session (not drawn inside a
+	// confederation, where the AS presented on such a session is the confederation identifier)
+	if !rt.Confed && kind != C09Confed && r.IntN(5) == 0 {
+		p.Negotiated = true
 	}
 	return p
 }
